@@ -418,6 +418,7 @@ func c15BigCheck(ci interface{}) lib.Outcome {
 	if err != nil {
 		return lib.Outcome{Skip: "reference-construction-failed"}
 	}
+	ownMissed := false
 	queries := []string{f.Content, "preface words\n" + editWords(f.Content, []int{101, 1777}) + "\ntrailing words\n"}
 	for qi, text := range queries {
 		ra, rb := renderMatches(a.MultipleMatch(text, true)), renderMatches(b.MultipleMatch(text, true))
@@ -425,10 +426,18 @@ func c15BigCheck(ci interface{}) lib.Outcome {
 			return lib.Outcome{Violation: fmt.Sprintf("%s, query %d: MultipleMatch differs\nfrom archive:   %v\nbuilt directly: %v", desc, qi, ra, rb)}
 		}
 		if qi == 0 && len(ra) == 0 {
-			return lib.Outcome{Violation: fmt.Sprintf("%s: the file's own text is not matched at all", desc)}
+			// Not asserted: the statement compares the archive-loaded classifier with one built directly, it does not
+			// promise that MultipleMatch finds a file's own text (License.MultipleMatch normalises the text and the
+			// string classifier normalises it a second time; for BCL.txt the result no longer contains the known value
+			// literally and the fuzzy path does not find it either, for both classifiers alike). Counted only.
+			ownMissed = true
 		}
 	}
-	return lib.Outcome{Nontrivial: true, Sample: map[string]interface{}{"archive": desc}}
+	var classes []string
+	if ownMissed {
+		classes = append(classes, "own-text-not-found-by-MultipleMatch(both-classifiers)")
+	}
+	return lib.Outcome{Nontrivial: true, Classes: classes, Sample: map[string]interface{}{"archive": desc}}
 }
 
 func TestVerif_C15_BigFiles(t *testing.T) {
